@@ -57,6 +57,11 @@ CHECKS = {
    "As C02; a neutral pass-through around three quarters of the caches measures hits/evictions for the non-triviality rule.",
    "stateful model-based property testing (rapid): reference model + differential against the uncached reader",
    "DESIGN.md 3/C03"),
+ "C09": ("fault_enumeration",
+   "Fault enumeration over generated workloads: a fault-free run counts the underlying Write (writer) or Read/Seek (reader) calls; then every call index is failed in 4 shapes {error, error after partial data} x {once, sticky}. Writer oracle: every API call returns (4 s watchdog + deadlock signature), Close reports an error whenever the sink failed, errors are monotone (no nil after a reported failure), no EOF marker after a failed Close, no bgzf goroutine remains. Reader oracle: every call returns, every byte returned is the right byte for its position (also after a failed and retried Seek), io.EOF only at the true end, no goroutine remains; rd 1..4, with and without caches.",
+   "Fault positions are enumerated exhaustively per workload; the workloads and the goroutine schedules (sink delays, rd) are sampled. Faults are honest errors, not silent short writes.",
+   "fault injection through harness-owned io.Writer/io.ReadSeeker shims, exhaustive over call indices of rapid-generated workloads; oracle = return/leak watchdog + reference data",
+   "DESIGN.md 3/C09"),
 }
 
 NOT_YET = {}
